@@ -217,13 +217,10 @@ pub fn def(ctx: &Ctx) -> PropertyDef {
     let workers = ctx.workers;
     for p in ilv_programs() {
         let three = p.threads.len() >= 3;
-        scenarios.push(program_scenario(p, ilv_oracle(), move |_c| IlvCfg {
-            bounds: if quick { if three { vec![0, 1] } else { vec![0, 1, 2] } } else if three { vec![0, 1, 2] } else { vec![0, 1, 2, 3] },
-            workers,
-            split_depth: 6,
-            time_cap_s: Some(if quick { 8.0 } else { 300.0 }),
-            max_executions: None,
-        }));
+        scenarios.push({
+                let nthreads = p.threads.len();
+                program_scenario(p, ilv_oracle(), move |c| crate::harness::ilv::tier_cfg(c, nthreads))
+            });
     }
     let mut assumptions = COMMON_ASSUMPTIONS.to_vec();
     assumptions.push("counters are compared in delta form on every transition, so deduplicating states by a canonical form that drops the monotone counters loses nothing (DESIGN 3.4)");
